@@ -3,12 +3,35 @@ import EraVerif.Model.Wire
 namespace EraVerif.Proofs.Wire
 open EraVerif.Model.Wire
 
+theorem writeVarintAux_fuel (n : Nat) : ∀ f f', n ≤ f → n ≤ f' → writeVarintAux f n = writeVarintAux f' n := by
+  induction n using Nat.strongRecOn with
+  | _ n ih =>
+    intro f f' hf hf'
+    by_cases h : n < 128
+    · cases f <;> cases f' <;> simp [writeVarintAux, h]
+    · obtain ⟨g, rfl⟩ : ∃ g, f = g + 1 := ⟨f - 1, by omega⟩
+      obtain ⟨g', rfl⟩ : ∃ g', f' = g' + 1 := ⟨f' - 1, by omega⟩
+      simp only [writeVarintAux, h, if_false]
+      rw [ih (n / 128) (by omega) g g' (by omega) (by omega)]
+
+/-- the loop equation of `write_varint` -/
+theorem writeVarint_eq (n : Nat) :
+    writeVarint n = if n < 128 then [UInt8.ofNat n] else UInt8.ofNat (n % 128 + 128) :: writeVarint (n / 128) := by
+  unfold writeVarint
+  cases n with
+  | zero => rfl
+  | succ m =>
+    simp only [writeVarintAux]
+    split
+    · rfl
+    · rw [writeVarintAux_fuel ((m + 1) / 128) m ((m + 1) / 128) (by omega) (Nat.le_refl _)]
+
 theorem readVarintAux_write (n : Nat) : ∀ (k sh acc : Nat) (rest : Bytes), n < 2 ^ (7 * (k+1)) → 
     readVarintAux (k+1) sh acc (writeVarint n ++ rest) = .ok (acc + n * 2 ^ sh, rest) := by
   induction n using Nat.strongRecOn with
   | _ n ih =>
     intro k sh acc rest hk
-    rw [writeVarint]
+    rw [writeVarint_eq]
     split
     · rename_i h
       have h1 : n % 256 = n := Nat.mod_eq_of_lt (by omega)
@@ -94,7 +117,7 @@ theorem writeVarint_isVarint (n : Nat) : ∃ k, IsVarintN k (writeVarint n) ∧ 
     (∀ j, n < 2 ^ (7 * (j + 1)) → k ≤ j + 1) := by
   induction n using Nat.strongRecOn with
   | _ n ih =>
-    rw [writeVarint]
+    rw [writeVarint_eq]
     split
     · rename_i h
       refine ⟨1, .last _ ?_, ?_, fun j _ => by omega⟩
@@ -126,9 +149,9 @@ theorem writeVarint_minimal {k bs} (h : IsVarintN k bs) : (writeVarint (varintVa
   induction h with
   | last b hb =>
     have : varintVal [b] = b.toNat := by simp [varintVal]; omega
-    rw [this, writeVarint]; simp [hb]
+    rw [this, writeVarint_eq]; simp [hb]
   | more b bs k hb hbs ih =>
-    rw [writeVarint]
+    rw [writeVarint_eq]
     split
     · simp
     · have : varintVal (b :: bs) / 128 = varintVal bs := by simp only [varintVal]; omega
@@ -1214,5 +1237,486 @@ theorem supportsCanonical_field {tbl : Table} (h : supportsCanonical tbl = true)
   refine ⟨hc.1, ⟨hcf.1, hcf.2⟩, by omega, ?_⟩
   intro k hk
   simpa [FieldSchema.closedIn, hk] using hcl2
+
+
+
+/-! ## What the parser returns is well-formed (so `canonical_raw` is idempotent on every accepted buffer) -/
+
+/-- shape of a value `Reader::read` returns for wire type `w` -/
+def RawOK (w : Wire) (v : Bytes) : Prop :=
+  match w with
+  | .varint => ∃ n, n < 2 ^ 64 ∧ v = writeVarint n
+  | .i64 => v.length = 8
+  | .i32 => v.length = 4
+  | .len => v.length < 2 ^ 32
+
+theorem readVarint32_lt {bs r : Bytes} {n : Nat} (h : readVarint32 bs = .ok (n, r)) : n < 2 ^ 32 := by
+  simp only [readVarint32] at h
+  split at h
+  · injection h with h; injection h with h1 h2; subst h1; exact Nat.mod_lt _ (by decide)
+  · simp at h
+
+theorem takeN_ok {n : Nat} {bs a r : Bytes} (h : takeN n bs = .ok (a, r)) : a.length = n := by
+  simp only [takeN] at h
+  split at h
+  · simp at h
+  · injection h with h; injection h with h1 h2; subst h1; simp; omega
+
+theorem readValue_ok {w : Wire} {bs v r : Bytes} (h : readValue w bs = .ok (v, r)) : RawOK w v := by
+  cases w <;> simp only [readValue] at h
+  · split at h
+    · rename_i x rr hx
+      injection h with h; injection h with h1 h2; subst h1
+      simp only [readVarint64] at hx
+      split at hx
+      · injection hx with hx; injection hx with h3 h4; subst h3
+        exact ⟨_, Nat.mod_lt _ (by decide), rfl⟩
+      · simp at hx
+    · simp at h
+  · exact takeN_ok h
+  · simp only [readBytes] at h
+    split at h
+    · rename_i n rr hn
+      have := takeN_ok h
+      have hlt := readVarint32_lt hn
+      simp only [RawOK]; omega
+    · simp at h
+  · exact takeN_ok h
+
+theorem readPacked_ok {w : Wire} : ∀ (fuel : Nat) (bs : Bytes) (vs : List Bytes),
+    readPacked w fuel bs = .ok vs → ∀ v ∈ vs, RawOK w v := by
+  intro fuel
+  induction fuel with
+  | zero =>
+    intro bs vs h v hv
+    cases bs with
+    | nil => simp [readPacked] at h; subst h; simp at hv
+    | cons b bs => simp [readPacked] at h
+  | succ f ih =>
+    intro bs vs h v hv
+    cases bs with
+    | nil => simp [readPacked] at h; subst h; simp at hv
+    | cons b bs =>
+      simp only [readPacked] at h
+      split at h
+      · rename_i x r hx
+        split at h
+        · rename_i xs hxs
+          injection h with h; subst h
+          rcases List.mem_cons.mp hv with hv | hv
+          · subst hv; exact readValue_ok hx
+          · exact ih r xs hxs v hv
+        · simp at h
+      · simp at h
+
+theorem readField_ok {fw got : Wire} {bs r : Bytes} {vs : List Bytes}
+    (h : readField fw got bs = .ok (vs, r)) : ∀ v ∈ vs, RawOK fw v := by
+  simp only [readField] at h
+  split at h
+  · split at h
+    · rename_i x rr hx
+      injection h with h; injection h with h1 h2; subst h1
+      intro v hv; simp at hv; subst hv; exact readValue_ok hx
+    · simp at h
+  · split at h
+    · simp at h
+    · split at h
+      · rename_i chunk rr hc
+        split at h
+        · rename_i xs hxs
+          injection h with h; injection h with h1 h2; subst h1
+          exact readPacked_ok _ _ _ hxs
+        · simp at h
+      · simp at h
+
+
+
+/-- keys strictly ascending -/
+def Sorted {α : Type} (m : FieldMap α) : Prop := (m.map (·.1)).Pairwise (· < ·)
+
+theorem key_mem_push {α : Type} {m : FieldMap α} {k : Nat} {vs : List α} {p : Nat × List α}
+    (h : p ∈ m.push k vs) : p.1 = k ∨ ∃ q ∈ m, q.1 = p.1 := by
+  rcases mem_push h with h | h | ⟨old, _, h⟩
+  · exact Or.inr ⟨p, h, rfl⟩
+  · exact Or.inl (by rw [h])
+  · exact Or.inl (by rw [h])
+
+theorem sorted_push {α : Type} (m : FieldMap α) (k : Nat) (vs : List α) (h : Sorted m) : Sorted (m.push k vs) := by
+  induction m with
+  | nil => simp [FieldMap.push, Sorted]
+  | cons q rest ih =>
+    obtain ⟨k', vs'⟩ := q
+    simp only [Sorted, List.map_cons, List.pairwise_cons] at h
+    simp only [FieldMap.push]
+    split
+    · rename_i hlt
+      simp only [Sorted, List.map_cons, List.pairwise_cons]
+      refine ⟨?_, h⟩
+      intro x hx
+      rcases List.mem_cons.mp hx with hx | hx
+      · omega
+      · have := h.1 x hx; omega
+    · split
+      · simp only [Sorted, List.map_cons, List.pairwise_cons]; exact h
+      · rename_i h1 h2
+        simp only [Sorted, List.map_cons, List.pairwise_cons]
+        refine ⟨?_, ih h.2⟩
+        intro x hx
+        obtain ⟨p, hp, rfl⟩ := List.mem_map.mp hx
+        rcases key_mem_push hp with hk | ⟨q, hq, hk⟩
+        · omega
+        · rw [← hk]; exact h.1 q.1 (List.mem_map.mpr ⟨q, hq, rfl⟩)
+
+/-- what `read_fields` guarantees about one map entry -/
+def EntryOK (m : MsgSchema) (p : Nat × List Bytes) : Prop :=
+  ∃ fd, m.getField p.1 = some fd ∧ FieldOk fd ∧ p.1 * 8 + 7 < 2 ^ 32 ∧ ∀ v ∈ p.2, RawOK fd.kind.wire v
+
+theorem readFieldsLoop_inv {m : MsgSchema} : ∀ (fuel : Nat) (bs : Bytes) (acc out : FieldMap Bytes),
+    readFieldsLoop m fuel bs acc = .ok out → Sorted acc → (∀ p ∈ acc, EntryOK m p) →
+    Sorted out ∧ ∀ p ∈ out, EntryOK m p := by
+  intro fuel
+  induction fuel with
+  | zero =>
+    intro bs acc out h hs hall
+    cases bs with
+    | nil => simp [readFieldsLoop] at h; subst h; exact ⟨hs, hall⟩
+    | cons b bs => simp [readFieldsLoop] at h
+  | succ f ih =>
+    intro bs acc out h hs hall
+    cases bs with
+    | nil => simp [readFieldsLoop] at h; subst h; exact ⟨hs, hall⟩
+    | cons b bs =>
+      simp only [readFieldsLoop] at h
+      split at h
+      · simp at h
+      · rename_i tag r htag
+        split at h
+        · simp at h
+        · rename_i wire hwire
+          split at h
+          · simp at h
+          · rename_i fd hfd
+            split at h
+            · simp at h
+            · rename_i hmap
+              split at h
+              · simp at h
+              · rename_i hpres
+                split at h
+                · simp at h
+                · rename_i vals r' hrf
+                  refine ih r' _ out h (sorted_push acc _ vals hs) ?_
+                  have hlt := readVarint32_lt htag
+                  have hok : FieldOk fd := by
+                    refine ⟨by simpa using hmap, ?_⟩
+                    cases hr : fd.repeated <;> cases he : fd.explicitPresence <;> simp_all
+                  have hvals := readField_ok hrf
+                  intro p hp
+                  rcases mem_push hp with hp | hp | ⟨old, hold, hp⟩
+                  · exact hall p hp
+                  · subst hp; exact ⟨fd, hfd, hok, by simp only; omega, hvals⟩
+                  · subst hp
+                    obtain ⟨fd', hfd', _, _, hv'⟩ := hall _ hold
+                    simp only at hfd'
+                    rw [hfd] at hfd'; injection hfd' with e; subst e
+                    refine ⟨fd, hfd, hok, by simp only; omega, ?_⟩
+                    intro v hv
+                    rcases List.mem_append.mp hv with hv | hv
+                    · exact hv' v hv
+                    · exact hvals v hv
+
+theorem readFields_inv {m : MsgSchema} {bs : Bytes} {out : FieldMap Bytes} (h : readFields m bs = .ok out) :
+    m.proto3 = true ∧ Sorted out ∧ ∀ p ∈ out, EntryOK m p := by
+  simp only [readFields] at h
+  split at h
+  · simp at h
+  · rename_i hp
+    exact ⟨by simpa using hp, readFieldsLoop_inv _ _ [] out h (by simp [Sorted]) (by simp)⟩
+
+
+
+/-- what `WF` demands of one entry (at depth `d + 1`) -/
+def GoodEntry (tbl : Table) (d : Nat) (m : MsgSchema) (p : Nat × List Tree) : Prop :=
+  ∃ fd, m.getField p.1 = some fd ∧ FieldOk fd ∧ p.1 * 8 + 7 < 2 ^ 32 ∧ p.2 ≠ [] ∧
+    (1 < p.2.length → fd.repeated = true) ∧ (∀ v ∈ p.2, ValWF (WF tbl d) fd.kind v) ∧
+    (fd.kind.wire ≠ .len → (payloadVals p.2).flatten.length < 2 ^ 32)
+
+theorem length_le_emitField_len (num : Nat) (ps : List Bytes) : ∀ v ∈ ps, v.length ≤ (emitField .len num ps).length := by
+  induction ps with
+  | nil => intro v hv; simp at hv
+  | cons p ps ih =>
+    intro v hv
+    simp only [emitField, List.flatMap_cons, List.length_append, writeLen] at ih ⊢
+    rcases List.mem_cons.mp hv with hv | hv
+    · subst hv; omega
+    · have := ih v hv; omega
+
+theorem flatten_le_emitField_scalar (w : Wire) (hw : w ≠ .len) (num : Nat) (ps : List Bytes) :
+    ps.flatten.length ≤ (emitField w num ps).length := by
+  cases w <;> first | exact absurd rfl hw | skip
+  all_goals
+    cases ps with
+    | nil => simp [emitField]
+    | cons p ps =>
+      cases ps with
+      | nil => simp [emitField]
+      | cons p2 ps => simp only [emitField, writeLen, List.length_append]; omega
+
+/-- a list of values can be replaced, value by value, by related ones -/
+theorem list_choice {α β : Type} (R : α → β → Prop) : ∀ (l : List α), (∀ a ∈ l, ∃ b, R a b) →
+    ∃ l' : List β, l'.length = l.length ∧ ∀ i (h : i < l.length) (h' : i < l'.length), R l[i] l'[i] := by
+  intro l
+  induction l with
+  | nil => intro _; exact ⟨[], rfl, fun i h => absurd h (by simp)⟩
+  | cons a as ih =>
+    intro h
+    obtain ⟨b, hb⟩ := h a (by simp)
+    obtain ⟨bs, hlen, hbs⟩ := ih (fun x hx => h x (by simp [hx]))
+    refine ⟨b :: bs, by simp [hlen], ?_⟩
+    intro i hi hi'
+    cases i with
+    | zero => exact hb
+    | succ j => exact hbs j (by simpa using hi) (by simpa using hi')
+
+theorem mem_iff_getElem' {α : Type} {l : List α} {a : α} (h : a ∈ l) : ∃ i, ∃ (hi : i < l.length), l[i] = a :=
+  List.getElem_of_mem h
+
+
+
+theorem mapE_ok_getElem {α β : Type} (g : α → Except Err β) : ∀ (l : List α) (r : List β), mapE g l = .ok r →
+    r.length = l.length ∧ ∀ i (h : i < l.length) (h' : i < r.length), g l[i] = .ok r[i] := by
+  intro l
+  induction l with
+  | nil => intro r h; simp [mapE] at h; subst h; exact ⟨rfl, fun i h => absurd h (by simp)⟩
+  | cons a as ih =>
+    intro r h
+    simp only [mapE] at h
+    cases hga : g a with
+    | error e => simp [hga] at h
+    | ok c =>
+      simp only [hga] at h
+      cases hr : mapE g as with
+      | error e => simp [hr] at h
+      | ok cs =>
+        simp only [hr] at h
+        injection h with h; subst h
+        obtain ⟨hl, hi⟩ := ih cs hr
+        refine ⟨by simp [hl], ?_⟩
+        intro i h1 h2
+        cases i with
+        | zero => exact hga
+        | succ j => exact hi j (by simpa using h1) (by simpa using h2)
+
+theorem decode_ok_is_node (tbl : Table) (f idx : Nat) (b : Bytes) (t : Tree) (h : decode tbl f idx b = .ok t) :
+    ∃ fs, t = .node fs := by
+  cases f with
+  | zero => simp [decode] at h
+  | succ f =>
+    simp only [decode] at h
+    split at h
+    · simp at h
+    · split at h
+      · simp at h
+      · split at h
+        · simp at h
+        · injection h with h; exact ⟨_, h.symm⟩
+
+/-- one entry of the parser's result, re-read as an entry of a well-formed value with the same canonical bytes
+(`none`-like case `q.2 = []`: the entry writes nothing) -/
+theorem decodeEntry_good (tbl : Table) (f : Nat) (m : MsgSchema)
+    (ih : ∀ (idx : Nat) (b : Bytes) (fs : List (Nat × List Tree)), decode tbl f idx b = .ok (.node fs) →
+      (payloadFields fs).length < 2 ^ 32 → ∃ fs', WF tbl f idx fs' ∧ payloadFields fs' = payloadFields fs)
+    (p : Nat × List Bytes) (q : Nat × List Tree) (hq : decodeEntry (decode tbl f) m p = .ok q) (hp : EntryOK m p)
+    (hsize : (encodeField q.1 q.2 (payloadVals q.2)).length < 2 ^ 32) :
+    q.1 = p.1 ∧ (q.2 = [] ∨ ∃ ts', GoodEntry tbl f m (q.1, ts') ∧
+      encodeField q.1 ts' (payloadVals ts') = encodeField q.1 q.2 (payloadVals q.2)) := by
+  obtain ⟨fd, hfd, hok, hnum, hraw⟩ := hp
+  simp only [decodeEntry, hfd] at hq
+  split at hq
+  · simp at hq
+  · rename_i hmulti
+    have hmulti' : 1 < p.2.length → fd.repeated = true := by
+      intro h
+      cases hr : fd.repeated
+      · simp [hr, h] at hmulti
+      · rfl
+    cases hk : fd.kind with
+    | msg k =>
+      rw [hk] at hq
+      simp only [] at hq
+      split at hq
+      · simp at hq
+      · rename_i ts hts
+        injection hq with hq; subst hq
+        refine ⟨rfl, ?_⟩
+        obtain ⟨hlen, hget⟩ := mapE_ok_getElem _ _ _ hts
+        by_cases hnil : ts = []
+        · exact Or.inl hnil
+        · right
+          -- every value is a node whose payload is part of the field's bytes
+          have hnode : ∀ t ∈ ts, ∃ fs, t = Tree.node fs := by
+            intro t ht
+            obtain ⟨i, hi, rfl⟩ := List.getElem_of_mem ht
+            exact decode_ok_is_node tbl f k _ _ (hget i (by omega) hi)
+          have hhead : ∀ t ∈ ts, t.wire = .len := by
+            intro t ht; obtain ⟨fs, rfl⟩ := hnode t ht; rfl
+          have hsz : ∀ t ∈ ts, t.payload.length < 2 ^ 32 := by
+            intro t ht
+            have hw : encodeField p.1 ts (payloadVals ts) = emitField .len p.1 (payloadVals ts) := by
+              cases ts with
+              | nil => exact absurd rfl hnil
+              | cons v vs => simp [encodeField, hhead v (by simp)]
+            rw [hw] at hsize
+            have := length_le_emitField_len p.1 (payloadVals ts) t.payload
+              (by rw [payloadVals_eq_map]; exact List.mem_map.mpr ⟨t, ht, rfl⟩)
+            omega
+          have hex : ∀ t ∈ ts, ∃ t', ValWF (WF tbl f) (.msg k) t' ∧ t'.payload = t.payload := by
+            intro t ht
+            obtain ⟨i, hi, rfl⟩ := List.getElem_of_mem ht
+            have hd := hget i (by omega) hi
+            obtain ⟨fs, hfs⟩ := hnode _ ht
+            rw [hfs] at hd
+            have hs := hsz _ ht
+            rw [hfs] at hs
+            obtain ⟨fs', hwf, hpay⟩ := ih k _ fs hd hs
+            exact ⟨.node fs', ⟨fs', rfl, hwf, by rw [hpay]; exact hs⟩, by rw [hfs]; exact hpay⟩
+          obtain ⟨ts', hlen', hrel⟩ := list_choice _ ts hex
+          have hpv : payloadVals ts' = payloadVals ts := by
+            rw [payloadVals_eq_map, payloadVals_eq_map]
+            apply List.ext_getElem (by simp [hlen'])
+            intro i h1 h2
+            simp only [List.getElem_map]
+            exact (hrel i (by simpa using h2) (by simpa using h1)).2
+          have hwf' : ∀ t' ∈ ts', ValWF (WF tbl f) (.msg k) t' := by
+            intro t' ht'
+            obtain ⟨i, hi, rfl⟩ := List.getElem_of_mem ht'
+            exact (hrel i (by omega) hi).1
+          have hne' : ts' ≠ [] := by
+            intro h; rw [h] at hlen'; exact hnil (List.eq_nil_of_length_eq_zero hlen'.symm)
+          refine ⟨ts', ⟨fd, hfd, hok, hnum, hne', ?_, by rw [hk]; exact hwf', by rw [hk]; intro h; exact absurd rfl h⟩, ?_⟩
+          · intro h; exact hmulti' (by simp only at h; omega)
+          · simp only [encodeField, hpv]
+            cases ts with
+            | nil => exact absurd rfl hnil
+            | cons v vs =>
+              cases ts' with
+              | nil => exact absurd rfl hne'
+              | cons v' vs' =>
+                have h1 : v.wire = .len := hhead v (by simp)
+                have h2 : v'.wire = .len := valWF_wire (hwf' v' (by simp))
+                simp [h1, h2]
+    | varint | fixed64 | fixed32 | bytes =>
+      rw [hk] at hq
+      simp only [] at hq
+      injection hq with hq; subst hq
+      refine ⟨rfl, ?_⟩
+      by_cases hnil : p.2 = []
+      · left; simp [hnil]
+      · right
+        rw [hk] at hraw
+        refine ⟨p.2.map (Tree.leaf _), ⟨fd, hfd, hok, hnum, by simpa using hnil, ?_, ?_, ?_⟩, rfl⟩
+        · intro h; exact hmulti' (by simpa using h)
+        · intro v hv
+          obtain ⟨raw, hr, rfl⟩ := List.mem_map.mp hv
+          have := hraw raw hr
+          rw [hk]
+          first
+            | (obtain ⟨n, hn, rfl⟩ := this; exact ⟨n, hn, rfl⟩)
+            | exact ⟨raw, this, rfl⟩
+        · intro hw
+          rw [hk] at hw
+          have hpv : ∀ w, payloadVals (p.2.map (Tree.leaf w)) = p.2 := by
+            intro w; rw [payloadVals_eq_map, List.map_map]; simp [Function.comp_def, Tree.payload]
+          simp only [hpv] at hsize ⊢
+          cases hp2 : p.2 with
+          | nil => exact absurd hp2 hnil
+          | cons v vs =>
+            rw [hp2] at hsize
+            simp only [encodeField, List.map_cons, Tree.wire] at hsize
+            have := flatten_le_emitField_scalar _ hw p.1 (v :: vs)
+            omega
+
+
+
+theorem entries_good (tbl : Table) (f : Nat) (m : MsgSchema)
+    (ih : ∀ (idx : Nat) (b : Bytes) (fs : List (Nat × List Tree)), decode tbl f idx b = .ok (.node fs) →
+      (payloadFields fs).length < 2 ^ 32 → ∃ fs', WF tbl f idx fs' ∧ payloadFields fs' = payloadFields fs) :
+    ∀ (fields : List (Nat × List Bytes)) (fs : List (Nat × List Tree)),
+      mapE (decodeEntry (decode tbl f) m) fields = .ok fs → (∀ p ∈ fields, EntryOK m p) →
+      (payloadFields fs).length < 2 ^ 32 →
+      ∃ fs', (fs'.map (·.1)).Sublist (fields.map (·.1)) ∧ (∀ p' ∈ fs', GoodEntry tbl f m p') ∧
+        payloadFields fs' = payloadFields fs := by
+  intro fields
+  induction fields with
+  | nil => intro fs h _ _; simp [mapE] at h; subst h; exact ⟨[], by simp, by simp, rfl⟩
+  | cons p ps ihl =>
+    intro fs h hall hsize
+    simp only [mapE] at h
+    cases hq : decodeEntry (decode tbl f) m p with
+    | error e => simp [hq] at h
+    | ok q =>
+      simp only [hq] at h
+      cases hqs : mapE (decodeEntry (decode tbl f) m) ps with
+      | error e => simp [hqs] at h
+      | ok qs =>
+        simp only [hqs] at h
+        injection h with h; subst h
+        obtain ⟨qn, qv⟩ := q
+        simp only [payloadFields, List.length_append] at hsize
+        obtain ⟨fs', hsub, hgood, hpay⟩ := ihl qs hqs (fun x hx => hall x (by simp [hx])) (by omega)
+        obtain ⟨hkey, hcase⟩ := decodeEntry_good tbl f m ih p (qn, qv) hq (hall p (by simp)) (by simp only; omega)
+        simp only at hkey hcase
+        rcases hcase with hnil | ⟨ts', hge, henc⟩
+        · refine ⟨fs', ?_, hgood, ?_⟩
+          · simp only [List.map_cons]; exact List.Sublist.cons _ hsub
+          · subst hnil; simp [payloadFields, encodeField, hpay]
+        · refine ⟨(qn, ts') :: fs', ?_, ?_, ?_⟩
+          · simp only [List.map_cons, hkey]; exact List.Sublist.cons_cons _ hsub
+          · intro p' hp'
+            rcases List.mem_cons.mp hp' with hp' | hp'
+            · subst hp'; exact hge
+            · exact hgood p' hp'
+          · simp only [payloadFields, henc, hpay]
+
+/-- **What the parser returns, written canonically, is the canonical encoding of a well-formed value.** -/
+theorem decode_wf (tbl : Table) : ∀ (f idx : Nat) (b : Bytes) (fs : List (Nat × List Tree)),
+    decode tbl f idx b = .ok (.node fs) → (payloadFields fs).length < 2 ^ 32 →
+    ∃ fs', WF tbl f idx fs' ∧ payloadFields fs' = payloadFields fs := by
+  intro f
+  induction f with
+  | zero => intro idx b fs h; simp [decode] at h
+  | succ f ih =>
+    intro idx b fs h hsize
+    simp only [decode] at h
+    split at h
+    · simp at h
+    · rename_i m hm
+      split at h
+      · simp at h
+      · rename_i fields hfields
+        split at h
+        · simp at h
+        · rename_i fs0 hmap
+          injection h with h; injection h with h; subst h
+          obtain ⟨hp3, hsorted, hentries⟩ := readFields_inv hfields
+          obtain ⟨fs', hsub, hgood, hpay⟩ := entries_good tbl f m ih fields fs0 hmap hentries hsize
+          exact ⟨fs', ⟨m, hm, hp3, List.Pairwise.sublist hsub hsorted, hgood⟩, hpay⟩
+
+/-- **Idempotence on every accepted buffer** (output below 4 GiB): `canonical_raw(canonical_raw(b)) = canonical_raw(b)`. -/
+theorem canonical_idem (tbl : Table) (idx : Nat) (b c : Bytes) (h : canonical tbl idx b = .ok c)
+    (hsize : c.length < 2 ^ 32) : canonical tbl idx c = .ok c := by
+  simp only [canonical, canonicalRaw_eq] at h
+  cases hd : decode tbl (b.length + 1) idx b with
+  | error e => simp [hd, Except.map] at h
+  | ok t =>
+    simp only [hd, Except.map] at h
+    injection h with h
+    obtain ⟨fs, rfl⟩ := decode_ok_is_node tbl _ idx b t hd
+    simp only [Tree.payload] at h
+    subst h
+    obtain ⟨fs', hwf, hpay⟩ := decode_wf tbl _ idx b fs hd hsize
+    have := canonical_of_ser tbl _ idx fs' _ (wf_ser tbl _ idx fs' hwf)
+    rw [hpay] at this
+    exact this
 
 end EraVerif.Proofs.Wire
